@@ -84,6 +84,14 @@ def c04mpp : Drv where
     match ws with
     | ["new"] => (Mpp.init, "ok")
     | ["part", i, v, n, k, t, c, g, e] => go (.part (nat! i) (nat! v) (nat! n) (optNat k) (nat! t) (nat! c) (nat! g) (e == "1"))
+    | ["routing", ks, pd] =>
+      -- ks: none | ok (the onion's keysend preimage hashes to the payment hash) | bad; pd: 1 = the onion carries payment_data
+      let r := match ks with
+        | "none" => MppGen.recvRouting (fun p => p) none (pd == "1") 1
+        | "ok" => MppGen.recvRouting (fun p => p) (some 1) (pd == "1") 1
+        | _ => MppGen.recvRouting (fun p => p) (some 2) (pd == "1") 1
+      (s, match r with | .keysend => "keysend" | .invoice => "invoice" | .refused why => "err " ++ why.name)
+    | ["mincltv", h, m, c] => (s, if MppGen.recvCltvBelowMin (nat! h) (nat! m) (nat! c) then "soon" else "ok")
     | ["admit", al, o, a, k] => (s, if MppGen.recvAmountTooLow (al == "1") (nat! o) (nat! a) (optNat k) then "low" else "ok")
     | ["tick"] => go .tick
     | ["block", h] => go (.block (nat! h))
